@@ -24,6 +24,13 @@
 (*                   derived here, Blocks.split refreshes them in the      *)
 (*                   code).  Not part of Next: a single solve() never      *)
 (*                   retargets; VpscResolve.tla composes it.               *)
+(*   Restart         Solver.setStartingPositions(ps) as far as it gets: it *)
+(*                   resets the inactive list, clears every active flag    *)
+(*                   and builds fresh singleton blocks - and then raises   *)
+(*                   (the block list is not iterable); the caller catches  *)
+(*                   the exception and goes on with solve().  The flags    *)
+(*                   "unsatisfiable" are kept.  Like Retarget not part of  *)
+(*                   Next; VpscResolve.tla composes it.                    *)
 (*                                                                         *)
 (* Constants that model a code-level decision:                             *)
 (*   StopRule    "no-change"       stop when a satisfy() leaves the        *)
@@ -248,6 +255,12 @@ Retarget(d) ==
   /\ des' = d /\ pc' = "split" /\ prev' = <<>> /\ nsat' = 0 /\ didsplit' = FALSE
   /\ cost' = <<-1, 1>> /\ lastcost' = <<-1, 1>>
   /\ UNCHANGED <<nv, wt, sc, cons, active, unsat>>
+
+Restart ==
+  /\ pc = "done"
+  /\ active' = {} /\ pc' = "split" /\ prev' = <<>> /\ nsat' = 0 /\ didsplit' = FALSE
+  /\ cost' = <<-1, 1>> /\ lastcost' = <<-1, 1>>
+  /\ UNCHANGED <<nv, des, wt, sc, cons, unsat>>
 
 Control0 == /\ active = {} /\ unsat = {} /\ pc = "split" /\ prev = <<>>
             /\ cost = <<-1, 1>> /\ lastcost = <<-1, 1>> /\ nsat = 0 /\ didsplit = FALSE
